@@ -40,7 +40,6 @@ var pureFrameFuncs = map[string]bool{
 	"io/ioutil.ReadFile": true, "io/ioutil.WriteFile": true, "io/ioutil.ReadDir": true,
 	"encoding/json.Marshal": true, "encoding/json.MarshalIndent": true,
 	"(*sync/atomic.Int64).Load": true, "(*sync/atomic.Uint64).Load": true, "(*sync/atomic.Bool).Load": true, "(*sync/atomic.Int32).Load": true,
-	
 }
 
 var nonNilResult = map[string]bool{"errors.New": true, "fmt.Errorf": true}
@@ -136,8 +135,8 @@ func init() {
 			}
 			return scalar(f64, "(_ NaN 11 53)"), true
 		},
-		"math.Min": minMaxIntrinsic(true),
-		"math.Max": minMaxIntrinsic(false),
+		"math.Min":   minMaxIntrinsic(true),
+		"math.Max":   minMaxIntrinsic(false),
 		"math.Floor": roundIntrinsic("RTN"),
 		"math.Ceil":  roundIntrinsic("RTP"),
 		"math.Trunc": roundIntrinsic("RTZ"),
@@ -1576,7 +1575,6 @@ func (t *FnTrans) callText(x *ssa.Call) string {
 	}
 	return nodeText(t.W.fset, found)
 }
-
 
 // invokeContractCall: call through an interface with an assumed contract.
 func (t *FnTrans) invokeContractCall(x *ssa.Call, c *ssa.CallCommon, con *Contract, args []Val, st *HeapState, reach string) {
